@@ -17,6 +17,9 @@ type PropDef struct {
 	// Sweep: the scenario has a client named "sweep" whose first operation is injected
 	// at every scheduler step of a baseline run.
 	Sweep bool
+	// Valid (optional): the minimiser only keeps simplified scenarios for which it holds
+	// (invariants the generator guarantees and the oracle relies on)
+	Valid func(sc *Scenario) bool
 }
 
 var Props = map[string]*PropDef{}
@@ -806,6 +809,10 @@ func init() {
 			return sc
 		},
 		Check: checkC13,
+		Valid: func(sc *Scenario) bool {
+			s := sc.Project.Proc("s")
+			return s != nil && (sc.Mode != "churn" || s.Restart == "always")
+		},
 		NonTrivial: func(sc *Scenario, res *RunResult, t *Truth) bool {
 			for _, c := range t.Calls {
 				if c.Op == "scale" && c.Err == "" && c.RetSeq >= 0 {
@@ -828,6 +835,26 @@ func init() {
 		NonTrivial: func(sc *Scenario, res *RunResult, t *Truth) bool {
 			for _, c := range t.Calls {
 				if c.Op == "update" && c.RetSeq >= 0 {
+					return true
+				}
+			}
+			return false
+		},
+	})
+}
+
+func init() {
+	register(&PropDef{ID: "C06", Rule: "1-3 managed commands with process trees on the simulated kernel (0-2 children, grandchildren, members that ignore the stop signal or die slowly, members that left the group), shutdown parameters drawn from signal {unset, 1..31, 0, -3, 32, 64} x parent_only x timeout {unset, 1, 2, 4} x shutdown command {none, succeeds, fails, lies, hangs}; stop / restart requests at seeded instants, then a project shutdown (ordered or not); every kill(2) the code under test issues is compared with the configuration on the fake clock, and the process table is inspected after Run() returned; non-trivial = at least one signal was sent; distinct = distinct trace hash",
+		Gen: func(seed uint64, idx int, tier string) *Scenario {
+			sc, r := baseScenario("C06", seed)
+			genC06(r, sc, tier)
+			return sc
+		},
+		Check: checkC06,
+		Valid: validC06,
+		NonTrivial: func(sc *Scenario, res *RunResult, t *Truth) bool {
+			for i := range t.Events {
+				if t.Events[i].Kind == "os.kill" {
 					return true
 				}
 			}
